@@ -452,7 +452,8 @@ def gen_tree(rng, depth):
                             [{"s": [None, None, -1]}], [{"i": 0}, {"i": 0}], [{"s": [1, None, None]}], [{"i": 1}], [{"i": -1}, {"i": 0}],
                             [{"i": -1}, {"i": -1}, {"i": -1}], [{"i": 0}, {"i": 1}, {"i": 0}, {"i": 1}], [{"i": 0}, {"i": 0}, {"i": 0}],
                             [{"s": [None, None, None]}, {"i": 0}], [{"i": -2}], [{"i": -1}, {"i": -2}], [{"i": -2}, {"i": -1}],
-                            [{"i": -3}, {"i": -2}], [{"i": 1}, {"i": 0}], [{"s": [None, None, -1]}, {"i": -1}], [{"s": [-2, None, None]}, {"i": -2}]])
+                            [{"i": -3}, {"i": -2}], [{"i": 1}, {"i": 0}], [{"s": [None, None, -1]}, {"i": -1}], [{"s": [-2, None, None]}, {"i": -2}],
+                            [{"i": 0}, {"i": -1}], [{"i": 0}, {"i": 2}], [{"s": [None, None, 2]}], [{"i": -1}, {"i": 0}, {"i": -1}]])
         return ["select", which, [sub() for _ in range(rng.randint(1, 2))]]
     if k == "filter":
         if rng.random() < 0.4:
